@@ -114,3 +114,195 @@ Proof.
   - right; right; left; reflexivity.
   - vm_compute. intros [_ H]. apply H. reflexivity.
 Qed.
+
+(* ------------------------------------------------------------------------- *)
+(* ConvertToBcd                                                               *)
+(* ------------------------------------------------------------------------- *)
+Lemma to_bcd_bound : forall k v, 0 <= v -> 0 <= to_bcd_spec k v < 16 ^ Z.of_nat k.
+Proof.
+  induction k as [|k IH]; intros v Hv; cbn [to_bcd_spec]; [change (16 ^ Z.of_nat 0) with 1; lia|].
+  rewrite pow16_S. assert (0 <= v mod 10 < 10) by (apply Z.mod_pos_bound; lia).
+  specialize (IH (v / 10) ltac:(apply Z.div_pos; lia)). lia.
+Qed.
+
+Lemma to_bcd_loop_inv : forall vt w (K : nat),
+  std_cty vt -> csigned vt = false -> 1 <= w <= cbits vt ->
+  4 * (Z.of_nat K - 1) < w <= 4 * Z.of_nat K -> 4 * Z.of_nat K <= cbits vt ->
+  forall fuel (i : nat) value bcd, (i <= K)%nat -> (K - i < fuel)%nat ->
+    0 <= value <= cmax vt -> 0 <= bcd < 16 ^ Z.of_nat i ->
+    to_bcd_loop vt w fuel value (4 * Z.of_nat i) bcd
+    = Some (bcd + 16 ^ Z.of_nat i * to_bcd_spec (K - i) value).
+Proof.
+  intros vt w K Hstd Hu Hw HK HKc.
+  assert (Hpb := promote_bits_ge vt Hstd). assert (Hcp := cbits_promote vt Hstd).
+  assert (Hpstd : std_cty (promote vt)) by (apply promote_std; assumption).
+  assert (Hcm := cmax_promote vt Hstd). assert (H127 := cmax_ge_127 vt Hstd).
+  assert (Hmax : cmax vt = 2 ^ cbits vt - 1) by (unfold cmax; rewrite Hu; reflexivity).
+  assert (Hb1 : 1 <= cbits (promote vt)) by lia.
+  induction fuel as [|fuel IH]; intros i value bcd Hi Hf Hval Hbcd; [lia|].
+  cbn [to_bcd_loop].
+  destruct (Nat.eq_dec i K) as [->|Hne].
+  - replace (4 * Z.of_nat K <? w) with false by lia.
+    replace (K - K)%nat with 0%nat by lia. cbn [to_bcd_spec]. f_equal. lia.
+  - assert (HiK : (i < K)%nat) by lia.
+    replace (4 * Z.of_nat i <? w) with true by lia.
+    assert (P16 := pow16_pos i).
+    assert (E16 : 2 ^ (4 * Z.of_nat i) = 16 ^ Z.of_nat i) by apply pow16_pow2.
+    assert (Hle : 16 * 16 ^ Z.of_nat i <= 2 ^ cbits vt).
+    { rewrite <- pow16_S, <- pow16_pow2. apply pow2_le. lia. }
+    set (d := value mod 10). assert (Hd : 0 <= d < 10) by (apply Z.mod_pos_bound; lia).
+    set (q := value / 10). assert (Hq : 0 <= q <= value) by (unfold q; split; [apply Z.div_pos; lia|apply Z.div_le_upper_bound; lia]).
+    unfold lit.
+    (* value % 10 *)
+    unfold c_rem. cbn [ty val fst snd]. rewrite common_i32_r by assumption.
+    rewrite !wrap_id by (first [lia | apply in_cty_promote_nonneg; [assumption|lia]]).
+    change (10 =? 0) with false. cbv iota.
+    rewrite Z.quot_div_nonneg by lia. fold q.
+    rewrite in_ctyb_true by (apply in_cty_promote_nonneg; [assumption|lia]).
+    rewrite Z.rem_mod_nonneg by lia. fold d. cbn [bind].
+    (* << shift *)
+    rewrite c_shl_exact; rewrite ?promote_idem; try assumption; try lia.
+    2: { rewrite E16. lia. }
+    cbn [bind].
+    (* value / 10 *)
+    unfold c_div. cbn [ty val fst snd]. rewrite common_i32_r by assumption.
+    rewrite !wrap_id by (first [lia | apply in_cty_promote_nonneg; [assumption|lia]]).
+    change (10 =? 0) with false. cbv iota.
+    rewrite Z.quot_div_nonneg by lia. fold q.
+    rewrite in_ctyb_true by (apply in_cty_promote_nonneg; [assumption|lia]). cbn [bind].
+    unfold c_add. rewrite arith2_exact; change (common i32 i32) with i32; try (cbn; lia); try (incty; lia).
+    cbn [bind val snd].
+    rewrite c_or_exact; rewrite ?common_promote_r, ?common_same by assumption; try lia;
+      try (apply in_cty_promote_nonneg; [assumption|rewrite ?E16; lia]).
+    cbn [val snd]. rewrite E16.
+    rewrite <- E16 at 1. rewrite lor_low_high by (rewrite ?E16; lia). rewrite E16.
+    rewrite !wrap_id by (first [unfold std_cty, std_bits in Hstd; lia | apply in_cty_nonneg; [assumption|lia]]).
+    replace (4 * Z.of_nat i + 4) with (4 * Z.of_nat (S i)) by lia.
+    rewrite (IH (S i) q (bcd + d * 16 ^ Z.of_nat i)); try lia.
+    2: { rewrite pow16_S. lia. }
+    f_equal. replace (K - i)%nat with (S (K - S i)) by lia. cbn [to_bcd_spec]. fold d q.
+    rewrite pow16_S. ring.
+Qed.
+
+Lemma bcd_value_to_bcd : forall k v, 0 <= v -> bcd_value k (to_bcd_spec k v) = v mod 10 ^ Z.of_nat k.
+Proof.
+  induction k as [|k IH]; intros v Hv; cbn [bcd_value to_bcd_spec].
+  - change (10 ^ Z.of_nat 0) with 1. rewrite Z.mod_1_r. reflexivity.
+  - assert (Hd : 0 <= v mod 10 < 10) by (apply Z.mod_pos_bound; lia).
+    replace ((v mod 10 + 16 * to_bcd_spec k (v / 10)) mod 16) with (v mod 10).
+    2: { rewrite Z.add_comm, Z.mul_comm, Z.mod_add by lia. symmetry. apply Z.mod_small. lia. }
+    replace ((v mod 10 + 16 * to_bcd_spec k (v / 10)) / 16) with (to_bcd_spec k (v / 10)).
+    2: { rewrite Z.add_comm, Z.mul_comm, Z.div_add_l by lia. rewrite (Z.div_small (v mod 10)) by lia. lia. }
+    rewrite IH by (apply Z.div_pos; lia). rewrite pow10_S.
+    assert (P := pow10_pos k). rewrite Z.rem_mul_r by lia. lia.
+Qed.
+
+Lemma all_nibbles_to_bcd : forall k v, 0 <= v -> all_nibbles_le9 k (to_bcd_spec k v) = true.
+Proof.
+  induction k as [|k IH]; intros v Hv; cbn [all_nibbles_le9 to_bcd_spec]; [reflexivity|].
+  assert (Hd : 0 <= v mod 10 < 10) by (apply Z.mod_pos_bound; lia).
+  replace ((v mod 10 + 16 * to_bcd_spec k (v / 10)) mod 16) with (v mod 10).
+  2: { rewrite Z.add_comm, Z.mul_comm, Z.mod_add by lia. symmetry. apply Z.mod_small. lia. }
+  replace ((v mod 10 + 16 * to_bcd_spec k (v / 10)) / 16) with (to_bcd_spec k (v / 10)).
+  2: { rewrite Z.add_comm, Z.mul_comm, Z.div_add_l by lia. rewrite (Z.div_small (v mod 10)) by lia. lia. }
+  rewrite IH by (apply Z.div_pos; lia). replace (v mod 10 <=? 9) with true by lia. reflexivity.
+Qed.
+
+(* digits from the top: the most significant of k+1 digits *)
+Lemma to_bcd_top : forall k v, 0 <= v ->
+  to_bcd_spec (S k) v = to_bcd_spec k v + 16 ^ Z.of_nat k * ((v / 10 ^ Z.of_nat k) mod 10).
+Proof.
+  induction k as [|k IH]; intros v Hv.
+  - cbn [to_bcd_spec]. change (16 ^ Z.of_nat 0) with 1. change (10 ^ Z.of_nat 0) with 1. rewrite Z.div_1_r. lia.
+  - change (to_bcd_spec (S (S k)) v) with (v mod 10 + 16 * to_bcd_spec (S k) (v / 10)).
+    rewrite IH by (apply Z.div_pos; lia). cbn [to_bcd_spec]. rewrite pow16_S, pow10_S.
+    rewrite Z.div_div by (try lia; apply pow10_pos). ring.
+Qed.
+
+(* a representable value's BCD encoding fits the field *)
+Lemma to_bcd_fits : forall w v, 1 <= w <= 64 -> 0 <= v <= bcd_max w ->
+  to_bcd_spec (bcd_digits w) v < 2 ^ w /\ v < 10 ^ Z.of_nat (bcd_digits w).
+Proof.
+  intros w v Hw Hv.
+  destruct (bcd_max_split w ltac:(lia)) as [E R].
+  set (q := Z.to_nat (w / 4)) in *. set (r := w mod 4) in *.
+  assert (Hq : Z.of_nat q = w / 4) by (unfold q; apply Z2Nat.id; apply Z.div_pos; lia).
+  unfold bcd_max in Hv. fold r in Hv. rewrite <- Hq in Hv.
+  assert (P10 := pow10_pos q). assert (P16 := pow16_pos q).
+  assert (B := bcd_digits_bounds w ltac:(lia)).
+  destruct (Z.eq_dec r 0) as [Hr0|Hr0].
+  - (* w is a multiple of 4: K = q digits, v < 10^q *)
+    assert (HK : bcd_digits w = q) by (apply Nat2Z.inj; lia).
+    rewrite HK. rewrite Hr0 in Hv. change (2 ^ 0) with 1 in Hv.
+    split; [|lia].
+    replace w with (4 * Z.of_nat q) by lia. rewrite pow16_pow2. apply to_bcd_bound. lia.
+  - (* a partial top nibble of r bits: K = q + 1 digits, the top digit is < 2^r *)
+    assert (HK : bcd_digits w = S q) by (apply Nat2Z.inj; lia).
+    rewrite HK. rewrite to_bcd_top by lia.
+    assert (Pr : 0 < 2 ^ r) by (apply pow2_pos; lia).
+    assert (H8 : 2 ^ r <= 8).
+    { assert (C : r = 1 \/ r = 2 \/ r = 3) by lia. destruct C as [->|[->|->]]; pow_consts; lia. }
+    assert (Ht : v / 10 ^ Z.of_nat q < 2 ^ r) by (apply Z.div_lt_upper_bound; nia).
+    assert (Ht0 : 0 <= v / 10 ^ Z.of_nat q) by (apply Z.div_pos; lia).
+    rewrite (Z.mod_small (v / 10 ^ Z.of_nat q)) by lia.
+    assert (Bq := to_bcd_bound q v ltac:(lia)).
+    split.
+    + replace w with (4 * Z.of_nat q + r) by lia. rewrite pow2_add by lia. rewrite pow16_pow2. nia.
+    + rewrite pow10_S. nia.
+Qed.
+
+Lemma convert_to_bcd_spec : forall w v, 1 <= w <= 64 -> 0 <= v <= bcd_max w ->
+  convert_to_bcd w v = Some (to_bcd_spec (bcd_digits w) v).
+Proof.
+  intros w v Hw Hv. unfold convert_to_bcd.
+  assert (Hlw := lw_ge w ltac:(lia)). assert (B := bcd_digits_bounds w ltac:(lia)).
+  destruct (to_bcd_fits w v Hw Hv) as [_ Hlt].
+  assert (HvV : v <= cmax (uty w)).
+  { assert (Bd := bcd_bound w Hw). lia. }
+  replace 0 with (4 * Z.of_nat 0) at 1 by reflexivity.
+  rewrite (to_bcd_loop_inv (uty w) w (bcd_digits w)); try apply std_uty; try reflexivity; try lia.
+  - change (16 ^ Z.of_nat 0) with 1. rewrite Nat.sub_0_r. f_equal. lia.
+  - cbn [cbits uty]. lia.
+  - cbn [cbits uty]. assert (Hs := lw_std w). unfold std_bits in Hs. lia.
+  - unfold bcd_fuel. lia.
+  - change (16 ^ Z.of_nat 0) with 1. lia.
+Qed.
+
+Lemma bcd_try_write_accept : forall bv bytes off w argty v, wf_field bv bytes off w ->
+  0 <= v <= bcd_max w -> in_cty (uty w) v ->
+  exists bs', bcd_try_write true bv argty w v = Some (true, Some bs') /\
+              written bv bytes off w (to_bcd_spec (bcd_digits w) v) bs' /\
+              bcd_read true (set_bytes bv bs') w = Some v /\ bcd_ok true (set_bytes bv bs') w = Some true.
+Proof.
+  intros bv bytes off w argty v F Hv Hin.
+  pose proof F as [W Hobb Hw Hoff Hext].
+  destruct (bv_ct_std bv bytes W) as [Hstd [Hu Hc]].
+  assert (Hw64 : 1 <= w <= 64) by (destruct W; lia).
+  assert (Hwc : w <= cbits (bv_ct bv)) by (destruct W; lia).
+  destruct (to_bcd_fits w v Hw64 Hv) as [Hfit Hlt].
+  assert (Hb0 := to_bcd_bound (bcd_digits w) v ltac:(lia)).
+  set (u := to_bcd_spec (bcd_digits w) v) in *.
+  assert (Hu' : 0 <= u < 2 ^ w) by lia.
+  unfold bcd_try_write. rewrite bcd_could_write_spec by assumption.
+  replace (v <=? bcd_max w) with true by lia. cbn [bind negb].
+  rewrite (is_complete_wf bv bytes off w F). cbn [negb].
+  rewrite (wrap_id (uty w) v) by (first [cbn [cbits uty]; assert (H := lw_ge w); lia | assumption]).
+  rewrite convert_to_bcd_spec by assumption. fold u. cbn [bind].
+  assert (Hle2 : 2 ^ w <= 2 ^ cbits (bv_ct bv)) by (apply pow2_le; lia).
+  rewrite (wrap_id (bv_ct bv) u) by (first [lia | apply in_cty_unsigned; [assumption|lia]]).
+  destruct (bv_write_field bv bytes off w u F Hu') as [bs' [Hwr Hwritten]].
+  rewrite Hwr. cbn [bind]. exists bs'. split; [reflexivity|]. split; [exact Hwritten|].
+  pose proof Hwritten as [Hl [HB _]].
+  assert (F' := set_bytes_wf bv bytes off w bs' F Hl HB).
+  rewrite (bcd_read_spec _ _ _ _ F'), (bcd_ok_spec _ _ _ _ F').
+  rewrite (written_read_back bv bytes off w u bs' F Hu' Hwritten).
+  unfold u. rewrite bcd_value_to_bcd, all_nibbles_to_bcd by lia.
+  rewrite Z.mod_small by lia. split; reflexivity.
+Qed.
+
+Lemma bcd_try_write_reject : forall bv argty w v, 1 <= w <= 64 -> in_cty (uty w) v -> ~ (v <= bcd_max w) ->
+  bcd_try_write true bv argty w v = Some (false, None).
+Proof.
+  intros bv argty w v Hw Hin Hv. unfold bcd_try_write. rewrite bcd_could_write_spec by assumption.
+  replace (v <=? bcd_max w) with false by lia. reflexivity.
+Qed.
